@@ -154,7 +154,7 @@ theorem C02_flags_semis (s : Str) (a : Model.Analysis) (hsemis : a.maxSemiRun = 
     outside the CIF 1.1 set — or writes `<LF>;` body `<LF>;` such that `decode_text` maps the body back to the text.  It never
     returns CIF_INTERNAL_ERROR. -/
 theorem C02_char_text_roundtrip (c : Ctx) (s : Str) (quoted : Bool)
-    (hcr : (13 : CU) ∉ s)
+    (hcr : (13 : CU) ∉ s) (hdis : c.isCif1 = false → Model.hasDisallowed s = false)
     (hdelim : (Model.analyze s (!quoted) (!c.isCif1) LINE).delimLength = 2)
     (hA : C02_AnalysisFacts s (Model.analyze s (!quoted) (!c.isCif1) LINE)) :
     (∃ body c', writeChar c s quoted true = .ok (a!"\n;" ++ body ++ a!"\n;", c') ∧ c'.lastColumn = 1
@@ -163,7 +163,8 @@ theorem C02_char_text_roundtrip (c : Ctx) (s : Str) (quoted : Bool)
         ∧ (Model.analyze s (!quoted) (!c.isCif1) LINE).containsTextDelim = true)
     ∨ (writeChar c s quoted true = .error Gen.ErrCodes.CIF_DISALLOWED_CHAR ∧ c.isCif1 = true ∧ validate11 s = false) := by
   generalize ha : Model.analyze s (!quoted) (!c.isCif1) LINE = a at hdelim hA
-  unfold writeChar
+  rw [Lemmas.WriterChar.writeChar_clean c s quoted true (Lemmas.WriterChar.strClean_of _ s hcr hdis)]
+  unfold writeCharCore
   by_cases hv : c.isCif1 = true ∧ validate11 s = false
   · right; right; simp [hv]
   · simp only [hv, ↓reduceIte, ha]
@@ -213,14 +214,14 @@ theorem C02_char_text_roundtrip (c : Ctx) (s : Str) (quoted : Bool)
 
 /-- `C02_char_text_roundtrip` for the analysis the C computes — no hypothesis about the analysis left -/
 theorem C02_write_char_text (c : Ctx) (s : Str) (quoted : Bool)
-    (hcr : (13 : CU) ∉ s)
+    (hcr : (13 : CU) ∉ s) (hdis : c.isCif1 = false → Model.hasDisallowed s = false)
     (hdelim : (Model.analyze s (!quoted) (!c.isCif1) LINE).delimLength = 2) :
     (∃ body c', writeChar c s quoted true = .ok ((a!"\n;") ++ body ++ (a!"\n;"), c') ∧ c'.lastColumn = 1
         ∧ decodeText true true body = s)
     ∨ (writeChar c s quoted true = .error Gen.ErrCodes.CIF_DISALLOWED_VALUE ∧ c.isCif1 = true
         ∧ (Model.analyze s (!quoted) (!c.isCif1) LINE).containsTextDelim = true)
     ∨ (writeChar c s quoted true = .error Gen.ErrCodes.CIF_DISALLOWED_CHAR ∧ c.isCif1 = true ∧ validate11 s = false) :=
-  C02_char_text_roundtrip c s quoted hcr hdelim (C02_analysis_facts s _ _ _ hcr)
+  C02_char_text_roundtrip c s quoted hcr hdis hdelim (C02_analysis_facts s _ _ _ hcr)
 
 /-! ### the value level, through the lexer (model of group gD) -/
 
@@ -236,6 +237,8 @@ theorem C02_value_presented (c : Ctx) (s : Str) (q : Bool) (out : Str) (c' : Ctx
     (hok : okUnits (Lemmas.WriterLex.diaOf c) none s = true) (hcol : c.lastColumn ≤ LINE)
     (h : writeChar c s q true = .ok (out, c')) :
     Lemmas.WriterLex.Presented (Lemmas.WriterLex.diaOf c) c s q out := by
+  have h0 := h
+  have h := (Lemmas.WriterChar.writeChar_ok c s q true (out, c') h).2
   by_cases hd : (Model.analyze s (!q) (!c.isCif1) LINE).delimLength = 2
   · -- the text field
     have hcr := Lemmas.WriterLex.okUnits_noCR _ s hok
@@ -321,7 +324,7 @@ theorem C02_value_presented (c : Ctx) (s : Str) (q : Bool) (out : Str) (c' : Ctx
           · right; right
             exact hA.reserved hd (hfold_off (by simpa using hf)).2.2.1
       · intro e; cases e
-  · exact Lemmas.WriterLex.writeChar_presented_nontext c s q out c' hok hcol hd h
+  · exact Lemmas.WriterLex.writeChar_presented_nontext c s q out c' hok hcol hd h0
 
 open Spec.Lexical Model.Lexer in
 /-- **C02_value_roundtrip.**  What `write_char` writes is read back by the lexer (next_token of parser.c, model of group
@@ -427,6 +430,7 @@ theorem C02_unquoted_stays_unquoted (c : Ctx) (s : Str) (out : Str) (c' : Ctx)
     (hu : Model.unquotedOk s true = true) (h1 : (Model.counters s).numLines = 1) (hm : (Model.counters s).maxLine ≤ LINE)
     (h : writeChar c s false true = .ok (out, c')) :
     out = Lemmas.WriterLex.wrapLf (decide (s.length + c.lastColumn > LINE)) ++ s := by
+  have h := (Lemmas.WriterChar.writeChar_ok c s false true (out, c') h).2
   have hrec : Model.recommend s (!false) (!c.isCif1) LINE = .none := by
     simp [Model.recommend, Model.chooseDelim, hm, h1, hu]
   have hd0 : (Model.analyze s (!false) (!c.isCif1) LINE).delimLength = 0 := by
